@@ -485,6 +485,11 @@ func modelErrorsIs(x *Exec, fr *Frame, st *State, pc *preparedCall, k func(*Stat
 func modelTimeNow(x *Exec, fr *Frame, st *State, pc *preparedCall, k func(*State, []Value)) {
 	n := Var(x.fresh("now"), SInt)
 	st.assumeRaw(Ge(n, st.now))
+	// a clock read after a blocking lock acquisition is not earlier than the moment the lock was got
+	// ("locknow"); the ghost clock itself does not move at Lock(), so contracts over now / old(now) stand
+	if ln, ok := st.ghost["locknow"].(IntV); ok {
+		st.assumeRaw(Ge(n, ln.T))
+	}
 	st.now = n
 	ret1(st, k, IntV{n})
 }
